@@ -522,27 +522,25 @@ class Merge(Expr):
 
             # Find columns to project on the left
             for col in left.columns:
-                if col in left_on or col in projection:
+                suffixed = f"{col}{left_suffix}" in projection
+                if col in left_on or col in projection or suffixed:
                     project_left.append(col)
-                elif f"{col}{left_suffix}" in projection:
-                    project_left.append(col)
-                    if col in right.columns:
-                        # Right column must be present
-                        # for the suffix to be applied
-                        project_right.append(col)
+                if suffixed and col in right.columns:
+                    # Right column must be present
+                    # for the suffix to be applied
+                    # (also when col is a join key of the left input)
+                    project_right.append(col)
 
             # Find columns to project on the right
             for col in right.columns:
-                if col in right_on or col in projection:
+                suffixed = f"{col}{right_suffix}" in projection
+                if col in right_on or col in projection or suffixed:
                     if col not in project_right:
                         project_right.append(col)
-                elif f"{col}{right_suffix}" in projection:
-                    if col not in project_right:
-                        project_right.append(col)
-                    if col in left.columns and col not in project_left:
-                        # Left column must be present
-                        # for the suffix to be applied
-                        project_left.append(col)
+                if suffixed and col in left.columns and col not in project_left:
+                    # Left column must be present
+                    # for the suffix to be applied
+                    project_left.append(col)
 
             if set(project_left) < set(left.columns) or set(project_right) < set(
                 right.columns
